@@ -13,6 +13,8 @@ pub fn pin_clock() {
 }
 
 pub struct P<'a> {
+    /// true: the text goes through the type's serde `Deserialize` (a JSON string); the picture must be the type's fixed layout
+    pub via_serde: bool,
     pub ty: Ty,
     pub pic: &'a str,
     pub text: &'a str,
@@ -22,7 +24,7 @@ pub struct P<'a> {
 }
 impl<'a> Case for P<'a> {
     fn to_json(&self) -> Value {
-        json!({"kind": "parse", "type": self.ty.name(), "picture": self.pic, "text": self.text, "why": self.why,
+        json!({"kind": "parse", "via_serde": self.via_serde, "type": self.ty.name(), "picture": self.pic, "text": self.text, "why": self.why,
                "expect": match &self.expect { Ok(v) => v.to_json(), Err(()) => json!("error") },
                "expect_show": match &self.expect { Ok(v) => v.show(), Err(()) => "an error".to_string() }})
     }
@@ -50,19 +52,34 @@ pub fn obs_lv(st: &mut Stats, op: Op, lv: &LV) {
 
 pub fn check(st: &mut Stats, c: &P) {
     pin_clock();
-    st.op(Op::F_try_new);
-    let f = match Formatter::try_new(c.pic) {
-        Ok(f) => f,
-        Err(e) => {
-            if c.expect.is_ok() {
-                st.fail("C05/picture-rejected", format!("picture {:?}: {:?}", c.pic, e));
-            }
-            return;
+    let r = if c.via_serde {
+        use sqldatetime::{Date, IntervalDT, IntervalYM, OracleDate, Time, Timestamp};
+        st.op(Op::S_json_de);
+        let js = serde_json::to_string(c.text).expect("a JSON string");
+        let e = |e: serde_json::Error| sqldatetime::Error::ParseError(e.to_string());
+        match c.ty {
+            Ty::Date => serde_json::from_str::<Date>(&js).map(LV::Date).map_err(e),
+            Ty::Time => serde_json::from_str::<Time>(&js).map(LV::Time).map_err(e),
+            Ty::Ts => serde_json::from_str::<Timestamp>(&js).map(LV::Ts).map_err(e),
+            Ty::Ora => serde_json::from_str::<OracleDate>(&js).map(LV::Ora).map_err(e),
+            Ty::YM => serde_json::from_str::<IntervalYM>(&js).map(LV::YM).map_err(e),
+            Ty::DT => serde_json::from_str::<IntervalDT>(&js).map(LV::DT).map_err(e),
         }
+    } else {
+        st.op(Op::F_try_new);
+        let f = match Formatter::try_new(c.pic) {
+            Ok(f) => f,
+            Err(e) => {
+                if c.expect.is_ok() {
+                    st.fail("C05/picture-rejected", format!("picture {:?}: {:?}", c.pic, e));
+                }
+                return;
+            }
+        };
+        st.op(op_of(c.ty));
+        st.op(Op::F_parse);
+        parse_as(c.ty, &f, c.text)
     };
-    st.op(op_of(c.ty));
-    st.op(Op::F_parse);
-    let r = parse_as(c.ty, &f, c.text);
     if let Ok(lv) = &r {
         obs_lv(st, op_of(c.ty), lv);
     }
@@ -84,11 +101,15 @@ pub fn check(st: &mut Stats, c: &P) {
 }
 
 fn ev(st: &mut Stats, ty: Ty, pic: &str, text: &str, expect: Result<V, ()>, why: &str) {
-    st.eval(&P { ty, pic, text, expect, why }, check);
+    st.eval(&P { via_serde: false, ty, pic, text, expect, why }, check);
 }
 fn evh(st: &mut Stats, ty: Ty, pic: &str, text: &str, expect: Result<V, ()>, why: &str) {
     let h = mix(mix(hash64(pic.as_bytes()), hash64(text.as_bytes())), ty as u64);
-    st.eval_h(h, &P { ty, pic, text, expect, why }, check);
+    st.eval_h(h, &P { via_serde: false, ty, pic, text, expect, why }, check);
+    // the serde text form is the same reading under the type's fixed layout
+    if pic == crate::props::c15::layout(ty) {
+        st.eval_h(mix(h, 0x5e), &P { via_serde: true, ty, pic, text, expect, why }, check);
+    }
 }
 
 /// builds the expected value of a date-bearing type from (y,m,d) + zero time
@@ -217,6 +238,14 @@ pub fn run(ctx: &Ctx, st: &mut Stats) {
                         Ok(V::Ts(yy as i32, mm, dd, (r / 3_600_000_000) as u32, (r / 60_000_000 % 60) as u32, (r / 1_000_000 % 60) as u32, (r % 1_000_000) as u32))
                     };
                     ev(st, Ty::Ts, &format!("YYYY-MM-DD HH24:MI:SS.{}", ff), &format!("{:04}-{:02}-{:02} {:02}:{:02}:{:02}.{}", y, m, d, h, mi, s, frac), exp, "fraction-carry");
+                    // with a weekday field: it is the weekday of the date *written*, also when the carry moves the value to the next day
+                    let wd = crate::cal::weekday_sun0(n) as usize;
+                    for (k, (wpic, wtext)) in [("DY", DAYS[wd][..3].to_string()), ("DAY", DAYS[wd].to_string()), ("D", format!("{}", wd + 1))].into_iter().enumerate() {
+                        ev(st, Ty::Ts, &format!("{} YYYY-MM-DD HH24:MI:SS.{}", wpic, ff), &format!("{} {:04}-{:02}-{:02} {:02}:{:02}:{:02}.{}", wtext, y, m, d, h, mi, s, frac), exp, "fraction-carry-with-weekday");
+                        let nx = (wd + 1) % 7;
+                        let wrong = [DAYS[nx][..3].to_string(), DAYS[nx].to_string(), format!("{}", nx + 1)][k].clone();
+                        ev(st, Ty::Ts, &format!("{} YYYY-MM-DD HH24:MI:SS.{}", wpic, ff), &format!("{} {:04}-{:02}-{:02} {:02}:{:02}:{:02}.{}", wrong, y, m, d, h, mi, s, frac), Err(()), "weekday-disagrees-with-date");
+                    }
                 }
                 // IntervalDT, both signs, incl. the limit
                 for (neg, dd) in [(false, 0u32), (true, 0), (false, 1), (true, 3), (false, 99_999_999), (true, 99_999_999), (false, 100_000_000), (true, 100_000_000)] {
@@ -336,6 +365,20 @@ pub fn run(ctx: &Ctx, st: &mut Stats) {
     ] {
         ev(st, ty, pic, text, exp, "explicit");
     }
+    // (d2) every non-ASCII character (BMP) after and before a valid text: blanks are the ASCII ones, anything else is text
+    //      the picture does not account for
+    let cstep = ctx.tier.pick(997, ctx.q(7, 1), 1);
+    ctx.par(st, "(d2) every non-ASCII BMP character appended / prepended to a valid text", true, 0, (0x1_0000 - 0x80) / cstep, |st, i, _| {
+        let cp = 0x80 + (i * cstep) as u32;
+        if let Some(ch) = char::from_u32(cp) {
+            let cases: [(Ty, &str, &str); 6] = [(Ty::Date, "YYYY-MM-DD", "2024-05-03"), (Ty::Time, "HH24:MI:SS", "10:20:30"), (Ty::Ts, "YYYY-MM-DD HH24:MI:SS.FF6", "2024-05-03 10:20:30.250000"),
+                (Ty::Ora, "DD MON YYYY", "3 may 2024"), (Ty::YM, "YYYY-MM", "+12-05"), (Ty::DT, "DD HH24:MI:SS", "-5 10:20:30")];
+            let (ty, pic, text) = cases[(i % 6) as usize];
+            ev(st, ty, pic, &format!("{}{}", text, ch), Err(()), "trailing-garbage");
+            ev(st, ty, pic, &format!("{}{}", ch, text), Err(()), "leading-garbage");
+            ev(st, ty, pic, &format!("{} {}", text, ch), Err(()), "trailing-garbage");
+        }
+    });
     // (e)+(f)+(g) lenient spellings of boundary/random values, their perturbations, defective pictures
     let n = ctx.tier.pick(600, 1_200_000, ctx.big(24_000_000, 120_000_000));
     ctx.par(st, "(e,f,g) lenient spellings / perturbed texts / defective pictures, all six types", false, 0, n, |st, _, rng| {
@@ -448,6 +491,6 @@ pub fn replay(v: &Value, st: &mut Stats) -> bool {
         None => return false,
     };
     let (pic, text, why) = (jstr(v, "picture"), jstr(v, "text"), jstr(v, "why"));
-    st.eval(&P { ty, pic: &pic, text: &text, expect, why: &why }, check);
+    st.eval(&P { via_serde: v.get("via_serde").and_then(|x| x.as_bool()).unwrap_or(false), ty, pic: &pic, text: &text, expect, why: &why }, check);
     true
 }
